@@ -168,6 +168,17 @@ def render(e, env, budget=3):
         return render_def(df, budget)
     if k in ("Ref", "Paren"):
         return render(e["expr"], env, budget)
+    if k == "Block":
+        # value of a block: its tail expression, in the scope of the block's own `let`s (an inlined closure call is such a block)
+        benv, last = env, None
+        for st in e["stmts"]:
+            if st["k"] == "Local":
+                benv = A.bind_pattern(benv, st["pat"], st.get("init"), benv, "let", st) if benv is not None else benv
+                last = None
+            elif st["k"] == "ExprStmt":
+                last = st if not st.get("semi") else None
+        if last is not None:
+            return render(last["expr"], benv, budget)
     if k == "Unary":
         return render(e["expr"], env, budget) if e["op"] == "*" else e["op"] + render(e["expr"], env, budget)
     if k == "MethodCall":
@@ -302,6 +313,8 @@ def cond_key(repo, fn, envs, cond, env=None):
     env = env or envs.get(id(cond))
     if cond["k"] == "Paren":
         return cond_key(repo, fn, envs, cond["expr"], over)
+    if cond["k"] == "Block" and cond["stmts"] and cond["stmts"][-1]["k"] == "ExprStmt" and not cond["stmts"][-1].get("semi"):
+        return cond_key(repo, fn, envs, cond["stmts"][-1]["expr"], None if over is None else over)
     if cond["k"] == "Call":
         inl = _inline_closure(cond, env)
         if inl is not None:
